@@ -27,3 +27,6 @@ def tupctor(ty):
 
 from pyvc.contract import SPEC_TYPES
 SPEC_TYPES.update({"TP": TP, "INT": INT, "STR": STR})
+
+# TopicPartition(topic, partition): injective constructor with the two projections
+tp_ctor = PyThing("opaquector", ty=TP, fields=[("topic", STR), ("partition", INT)])
